@@ -350,7 +350,15 @@ static void part_fit(vfh::Rng &rng, vfh::Reporter &R, long ncases, int type) {
     // fit grid
     long ng = rng.range(type == 0 ? 2 : 3, 24);
     if (bc == CLAMPED0) ng = std::max(ng, 4L);
-    double hfit = rng.logu(0.02, 2), a = rng.coin(0.4) ? 0.0 : rng.uni(-20, 20) * hfit, b = a + hfit * (double)(ng - 1);
+    double hfit = rng.logu(0.02, 2);
+    // abscissa scale classes (every class occurs in every run): the spline space and the least-squares problem are
+    // invariant under x -> s*x, the entries of the library's fit matrix (h^2 factors) are not
+    const int xclass = (int)(ic % 8);
+    if (xclass == 1) hfit = rng.logu(1e-6, 1e-4);
+    else if (xclass == 3) hfit = rng.logu(1e-4, 2e-2);
+    else if (xclass == 5) hfit = rng.logu(2, 2e3);
+    R.counter(xclass == 1 ? "fit_grid_spacing_1e-6..1e-4" : xclass == 3 ? "fit_grid_spacing_1e-4..2e-2" : xclass == 5 ? "fit_grid_spacing_2..2e3" : "fit_grid_spacing_0.02..2");
+    double a = rng.coin(0.4) ? 0.0 : rng.uni(-20, 20) * hfit, b = a + hfit * (double)(ng - 1);
     auto sp = make_spline(type);
     sp->setBC(bc == NATURAL ? Spline::splineNormal : bc == PERIODIC ? Spline::splinePeriodic : Spline::splineDerivativeZero);
     bool custom = rng.coin(0.3);
